@@ -46,6 +46,11 @@ def main(tier):
         os.makedirs(os.path.dirname(os.path.join(root, rel)), exist_ok=True)
         open(os.path.join(root, rel), "wb").write(data)
         files[rel] = data
+    # a member name longer than the 100 bytes of a classic tar header, and a deep one
+    for rel, data in (("d/" + "n" * 120 + ".txt", b"long name"), ("d/" + "/".join(["p" * 30] * 5) + "/deep.bin", b"deep" * 100)):
+        os.makedirs(os.path.dirname(os.path.join(root, rel)), exist_ok=True)
+        open(os.path.join(root, rel), "wb").write(data)
+        files[rel] = data
     names = sorted(files)
 
     def run(args, cwd=root, inp=None):
